@@ -345,6 +345,7 @@ func checkC02(c *Ctx) {
 	c.Clause("IsBackendHealthy returns true only when the flag was read true or the unhealthy window was found expired (now > UnhealthyUntil) under the write lock")
 	c.Clause("every Strategy implementation proposes only health-tested backends (or findHealthyBackend falls back to an exhaustive scan)")
 	c.Clause("handleRequest answers 503 only on the no-backend edge and that edge never reaches the proxy")
+	c.Clause("every pick is preceded, unconditionally, by the re-examination of expired unhealthy windows (no throttle or debounce between an expiry and the next pick)")
 	c.NotDecided("that the specific pick is right for a given history/rotation; races between the check and the dispatch (the property's own 'moment of dispatch')")
 
 	c.dispatchGuard()
@@ -352,6 +353,9 @@ func checkC02(c *Ctx) {
 	c.ejectorTotal()
 	c.strategyHealthGuard()
 	c.selectionComplete()
+	// "503 only when none is healthy" includes backends whose window has just expired: the strategies
+	// filter on the raw flag, so every pick is preceded by the expiry re-examination (shared with C04)
+	c.recoveryIndependent()
 
 	// the function in which the proxied backend is chosen: the forwarding function itself, or — when
 	// the backend is handed to it as a parameter — its caller
@@ -799,6 +803,7 @@ func checkC04(c *Ctx) {
 	c.probeEdges()
 	c.healthMirror()
 	c.recoveryIndependent()
+	c.loopClosuresOwnTheirVariable()
 	c.dispatchGuard()
 	c.eligibilityPredicate()
 	_ = p
@@ -1259,7 +1264,12 @@ func (c *Ctx) recoveryIndependent() {
 					}
 				}
 			}
-			if exhaustive && !body.Dominates(next.Block()) {
+			// … and it is unconditional: every path to the pick runs through the loop (a sweep that is
+			// throttled, debounced or skipped on some path leaves expired backends ejected for picks
+			// that could have used them)
+			hdr := loopHeader(body)
+			unconditional := hdr != nil && hdr.Dominates(next.Block())
+			if exhaustive && !body.Dominates(next.Block()) && unconditional {
 				prepass = true
 				prepassPos = p.InstrPos(isH)
 			}
@@ -1490,4 +1500,126 @@ func singleStore(v ssa.Value) ssa.Value {
 		v = stored
 	}
 	return stripConv(v)
+}
+
+// loopClosuresOwnTheirVariable: the module declares a Go version before 1.22, so a `for` variable is
+// one variable for all iterations.  A closure made inside the loop that captures it and runs later —
+// on a goroutine it is handed to — sees whatever the loop has stored by then: every probe goroutine
+// probes the last backend of the pool and the others are never probed (C04), never ejected.  For
+// every closure created in a loop, a captured variable that is allocated outside the loop and
+// stored inside it must not reach a `go` statement (directly, or through a helper that starts the
+// function it is given).
+func (c *Ctx) loopClosuresOwnTheirVariable() {
+	p := c.P
+	rule := "loop-closure-owns-variable"
+	// helpers that run a function parameter on a new goroutine: param index set
+	asyncParam := map[*ssa.Function]map[int]bool{}
+	for _, fn := range p.Funcs {
+		if !p.IsHelios(fn) || fn.Parent() != nil {
+			continue
+		}
+		for i, pm := range fn.Params {
+			if _, isFn := pm.Type().Underlying().(*types.Signature); !isFn {
+				continue
+			}
+			async := false
+			// `go pm()` or a closure started with `go` that calls pm
+			for _, g := range append([]*ssa.Function{fn}, Closures(fn)...) {
+				for _, ci := range callsIn(g) {
+					if goi, ok := ci.(*ssa.Go); ok {
+						if goi.Call.Value == ssa.Value(pm) {
+							async = true
+						}
+						if mc, ok := goi.Call.Value.(*ssa.MakeClosure); ok {
+							for _, b := range mc.Bindings {
+								if b == ssa.Value(pm) {
+									async = true
+								}
+								// the parameter spilled into a cell because the closure captures it
+								if a, isAlloc := b.(*ssa.Alloc); isAlloc && a.Referrers() != nil {
+									for _, r := range *a.Referrers() {
+										if st, ok := r.(*ssa.Store); ok && st.Addr == ssa.Value(a) && st.Val == ssa.Value(pm) {
+											async = true
+										}
+									}
+								}
+							}
+						}
+					}
+				}
+			}
+			if async {
+				if asyncParam[fn] == nil {
+					asyncParam[fn] = map[int]bool{}
+				}
+				asyncParam[fn][i] = true
+			}
+		}
+	}
+	n := 0
+	var bad []string
+	for _, fn := range p.Funcs {
+		if !p.InScope(fn) {
+			continue
+		}
+		instrsOf(fn, func(in ssa.Instruction) {
+			mc, ok := in.(*ssa.MakeClosure)
+			if !ok {
+				return
+			}
+			hdr := loopHeader(mc.Block())
+			if hdr == nil {
+				return
+			}
+			inLoop := func(b *ssa.BasicBlock) bool {
+				return hdr.Dominates(b) && reaches(b, hdr, map[*ssa.BasicBlock]bool{})
+			}
+			for _, b := range mc.Bindings {
+				a, isAlloc := b.(*ssa.Alloc)
+				if !isAlloc || inLoop(a.Block()) {
+					continue // not a variable, or a fresh one per iteration
+				}
+				storedInLoop := false
+				if refs := a.Referrers(); refs != nil {
+					for _, r := range *refs {
+						if st, ok := r.(*ssa.Store); ok && st.Addr == ssa.Value(a) && inLoop(st.Block()) {
+							storedInLoop = true
+						}
+					}
+				}
+				if !storedInLoop {
+					continue
+				}
+				n++
+				// does the closure run later?
+				async := ""
+				if refs := mc.Referrers(); refs != nil {
+					for _, r := range *refs {
+						switch u := r.(type) {
+						case *ssa.Go:
+							if u.Call.Value == ssa.Value(mc) {
+								async = "it is started with `go`"
+							}
+						case *ssa.Call:
+							if callee := StaticFn(u); callee != nil {
+								for j, arg := range u.Call.Args {
+									if arg == ssa.Value(mc) && asyncParam[callee][j] {
+										async = "it is handed to " + callee.Name() + ", which runs it on a new goroutine"
+									}
+								}
+							}
+						}
+					}
+				}
+				if async != "" {
+					bad = append(bad, p.InstrPos(mc)+": the closure captures the loop variable "+a.Comment+" (one variable for all iterations under this module's Go version) and "+async+": by the time it runs the loop has moved on, so every such goroutine works on the last element — the other backends are never probed")
+				}
+			}
+		})
+	}
+	if len(bad) == 0 {
+		c.Pass(rule, "closures created in loops", "-", fmt.Sprintf("%d loop-variable captures, none deferred to a goroutine", n))
+	} else {
+		c.Fail(rule, "closures created in loops", "-", bad[0], bad...)
+	}
 }
